@@ -4,9 +4,19 @@ longer has (or declares differently) an assembly routine that the monitors call 
 public API runs in every case; what was stubbed is recorded in the evidence notes."""
 import subprocess
 
-TAG_CHAIN = ["verif", "verif,verifnohelpers", "verif,verifnoasm,verifnohelpers"]
-WHAT = {"verif,verifnohelpers": "direct calls of copyAsm/needExpand unavailable on this tree",
-        "verif,verifnoasm,verifnohelpers": "direct calls of sealAsm/openAsm/copyAsm/needExpand unavailable on this tree"}
+TAG_CHAIN = ["verif", "verif,verifnohelpers", "verif,verifnoswitch", "verif,verifnohelpers,verifnoswitch", "verif,verifnoasm,verifnohelpers", "verif,verifnoasm,verifnohelpers,verifnoswitch"]
+
+
+def what(tags):
+    w = []
+    if "verifnoasm" in tags:
+        w.append("direct calls of sealAsm/openAsm/copyAsm/needExpand unavailable on this tree")
+    elif "verifnohelpers" in tags:
+        w.append("direct calls of copyAsm/needExpand unavailable on this tree")
+    if "verifnoswitch" in tags:
+        w.append("the package variable that selects the accelerated path is not there in the expected form: the portable path is not forced")
+    return "; ".join(w)
+
 
 
 def build_sm4(binp, overlay, repo, env, out, who, extra=()):
@@ -15,6 +25,6 @@ def build_sm4(binp, overlay, repo, env, out, who, extra=()):
         p = subprocess.run(["go", "test", "-c", "-vet=off", "-tags", tags, "-overlay", overlay, "-o", binp] + list(extra) + ["./sm4/"], cwd=repo, env=env, capture_output=True, text=True)
         if p.returncode == 0:
             if tags != "verif":
-                out.notes.setdefault("degraded_builds", []).append("%s: test binary built with tags %s (%s)" % (who, tags, WHAT[tags]))
+                out.notes.setdefault("degraded_builds", []).append("%s: test binary built with tags %s (%s)" % (who, tags, what(tags)))
             return p
     return p
